@@ -105,6 +105,14 @@ func parseItems(s string) []item {
 	return r
 }
 
+func parseIndex(s string) uint {
+	v, err := strconv.ParseUint(s, 10, 64)
+	if err != nil {
+		panic("bad log index " + s)
+	}
+	return uint(v)
+}
+
 func (it item) value() interface{} {
 	if it.other {
 		return "not a LogCommon"
@@ -453,7 +461,7 @@ func execSub(w []string) (res h.Result) {
 			}
 			var bn uint64
 			fmt.Sscanf(p[1], "%d", &bn)
-			l := &hlog{spec: sp, blockN: bn, tx: int64(h.Atoi(p[2])), index: uint(h.Atoi(p[3])), vals: p[4:]}
+			l := &hlog{spec: sp, blockN: bn, tx: int64(h.Atoi(p[2])), index: parseIndex(p[3]), vals: p[4:]}
 			l.data = pack(sp, l.vals)
 			var unm []string
 			l.want, unm = wantRendering(sp, l.vals)
@@ -811,7 +819,7 @@ func execEnt(w []string) (res h.Result) {
 	}
 	var bn uint64
 	fmt.Sscanf(p[1], "%d", &bn)
-	l := &hlog{spec: sp, blockN: bn, tx: int64(h.Atoi(p[2])), index: uint(h.Atoi(p[3])), vals: p[4:]}
+	l := &hlog{spec: sp, blockN: bn, tx: int64(h.Atoi(p[2])), index: parseIndex(p[3]), vals: p[4:]}
 	l.data = pack(sp, l.vals)
 	removed := w[2] == "1"
 	res.Class = "ent-" + sp.name
